@@ -34,6 +34,11 @@ mod env;
 mod hook;
 #[cfg(not(feature = "model"))]
 mod refimpl;
+#[cfg(not(feature = "model"))]
+mod zscan;
+#[cfg(not(feature = "model"))]
+#[global_allocator]
+static GLOBAL: zscan::Scanner = zscan::Scanner;
 use env::SymRng;
 
 pub fn ext_degree(x: usize) -> ExtensionDegree {
@@ -468,6 +473,85 @@ pub fn run_verify(
     verify_out
 }
 
+/// REAL flavour: secrets made of marker bytes, the allocator armed around one operation; reports released blocks that still hold them
+#[cfg(not(feature = "model"))]
+fn run_zeroize(cfg: &Value) -> Value {
+    let marker_scalar = || {
+        let mut b = [zscan::MARK; 32];
+        b[31] = 0x07;
+        Option::<Scalar>::from(Scalar::from_canonical_bytes(b)).unwrap()
+    };
+    let marker_u64 = u64::from_le_bytes([zscan::MARK; 8]);
+    let x = cfg["x"].as_u64().unwrap_or(1) as usize;
+    let m = cfg["m"].as_u64().unwrap_or(1) as usize;
+    let n = cfg["n"].as_u64().unwrap_or(64) as usize;
+    let what = cfg["what"].as_str().unwrap_or("");
+    let res: (usize, usize, usize) = match what {
+        "opening" => {
+            let o = CommitmentOpening::new(marker_u64, (0..x).map(|_| marker_scalar()).collect());
+            zscan::arm();
+            drop(o);
+            zscan::disarm()
+        },
+        "witness" => {
+            let w = RangeWitness::init((0..m).map(|_| CommitmentOpening::new(marker_u64, (0..x).map(|_| marker_scalar()).collect())).collect()).unwrap();
+            zscan::arm();
+            drop(w);
+            zscan::disarm()
+        },
+        "mask" => {
+            let mk = ExtendedMask::assign(ext_degree(x), (0..x).map(|_| marker_scalar()).collect()).unwrap();
+            zscan::arm();
+            drop(mk);
+            zscan::disarm()
+        },
+        "statement" | "prove" | "verify_recover" => {
+            let pc = ristretto::create_pedersen_gens_with_extension_degree(ext_degree(x));
+            let params = RangeParameters::init(n, m, pc).unwrap();
+            let seeded = cfg["seeded"].as_bool().unwrap_or(m == 1);
+            let mut openings = Vec::new();
+            let mut commitments = Vec::new();
+            for _ in 0..m {
+                let r: Vec<Scalar> = (0..x).map(|_| marker_scalar()).collect();
+                commitments.push(params.pc_gens().commit(&Scalar::from(marker_u64), &r).unwrap());
+                openings.push(CommitmentOpening::new(marker_u64, r));
+            }
+            let seed = if seeded { Some(marker_scalar()) } else { None };
+            let st = RangeStatement::init(params, commitments, vec![None; m], seed).unwrap();
+            let w = RangeWitness::init(openings).unwrap();
+            if what == "statement" {
+                // statements living on the heap (a Vec handed to verify_batch, a Box): the inline seed must be cleared before release
+                let v = vec![st.clone(), st.clone()];
+                let b = Box::new(st);
+                zscan::arm();
+                drop(v);
+                drop(b);
+                zscan::disarm()
+            } else {
+                let mut rng = SymRng::new("sym", "zs");
+                let mut t = Transcript::new(b"symx context");
+                if what == "prove" {
+                    zscan::arm();
+                    let p = RistrettoRangeProof::prove_with_rng(&mut t, &st, &w, &mut rng);
+                    let r = zscan::disarm();
+                    assert!(p.is_ok());
+                    r
+                } else {
+                    let p = RistrettoRangeProof::prove_with_rng(&mut t, &st, &w, &mut rng).unwrap();
+                    let mut ts = vec![Transcript::new(b"symx context")];
+                    zscan::arm();
+                    let r = RangeProof::verify_batch(&mut ts, &[st.clone()], &[p], VerifyAction::RecoverAndVerify);
+                    let masks = r.unwrap();
+                    drop(masks);
+                    zscan::disarm()
+                }
+            }
+        },
+        _ => (0, 0, 0),
+    };
+    json!({"what": what, "freed_blocks": res.0, "dirty_blocks": res.1, "a_dirty_block_size": res.2})
+}
+
 fn hook_json() -> Value {
     #[cfg(feature = "model")]
     {
@@ -494,6 +578,8 @@ fn main() {
         "odd_statement" => codec::run_odd_statement(&cfg),
         "ctor" => codec::run_ctor(&cfg),
         "gens" => codec::run_gens(&cfg),
+        #[cfg(not(feature = "model"))]
+        "zeroize" => run_zeroize(&cfg),
         other => json!({"error": format!("unknown scenario {}", other)}),
     };
     println!("{}", json!({"flavour": env::FLAVOUR, "config": cfg, "out": out, "core": env::dump()}));
